@@ -1367,6 +1367,21 @@ func (w *W) builtin(s *State, b *ssa.Builtin, args []Value) Value {
 			}
 			return TupleV{}
 		}
+		if sl, ok := args[0].(SliceV); ok {
+			if !sl.Nil && sl.Len > 0 {
+				st, _ := b.Type().(*types.Signature).Params().At(0).Type().Underlying().(*types.Slice)
+				if st == nil {
+					panic(execErr{"clear: slice type unknown"})
+				}
+				arr := s.heap[sl.Obj].(ArrayV)
+				ne := append([]Value(nil), arr.E...)
+				for i := 0; i < sl.Len; i++ {
+					ne[sl.Off+i] = zeroValue(st.Elem())
+				}
+				s.heap[sl.Obj] = ArrayV{ne}
+			}
+			return TupleV{}
+		}
 	case "delete":
 		w.mapDelete(s, args[0].(MapV), args[1])
 		return TupleV{}
